@@ -220,6 +220,11 @@ func (fr *frame) visitInstr(instr ssa.Instruction) continuation {
 			fr.rtPanic("invalid memory address or nil pointer dereference")
 		}
 		store(deref(instr.Addr.Type()), addr, fr.get(instr.Val))
+		if len(fr.p.sched.gs) > 1 {
+			if a, ok := instr.Addr.(*ssa.Alloc); !ok || a.Heap {
+				fr.p.sched.visOps++ // shared-state epoch (see gosched)
+			}
+		}
 
 	case *ssa.If:
 		succ := 1
@@ -352,6 +357,7 @@ func (fr *frame) visitInstr(instr ssa.Instruction) continuation {
 		fr.mapWriteBegin(m)
 		m.insert(fr, key, v)
 		fr.mapWriteEnd(m)
+		fr.p.sched.visOps++
 
 	case *ssa.TypeAssert:
 		fr.env[instr] = fr.typeAssert(instr, fr.get(instr.X).(iface))
